@@ -2,6 +2,7 @@ package main
 
 import (
 	"bytes"
+	"errors"
 	"fmt"
 	"net/http"
 	"net/url"
@@ -277,6 +278,12 @@ func (m c05) attack(c *Ctx, s *SchemaSpec, schema *jsonapi.Schema, in []byte, cl
 				err = herr
 				return
 			}
+			switch (len(in) + len(class)) % 5 {
+			case 1:
+				hr.Body = &c05body{Reader: bytes.NewReader(in), closeErr: errors.New("close failed")} // reads fine, Close fails
+			case 2:
+				hr.Body = &c05body{Reader: bytes.NewReader(in), readErrAt: len(in) / 2} // the connection breaks half way
+			}
 			req, err = jsonapi.NewRequest(hr, schema)
 		}); pi != nil {
 			report("NewRequest/"+method, pi)
@@ -517,6 +524,28 @@ func (m c05) Case(c *Ctx, r *RNG) {
 	m.attack(c, s, schema, []byte(`{"data":null,"included":[null]}`), "null-element")
 }
 
+// c05body is a request body whose Close (or a Read half way) fails.
+type c05body struct {
+	*bytes.Reader
+	closeErr  error
+	readErrAt int
+	read      int
+}
+
+func (b *c05body) Read(p []byte) (int, error) {
+	if b.readErrAt > 0 && b.read >= b.readErrAt {
+		return 0, errors.New("connection reset")
+	}
+	if b.readErrAt > 0 && len(p) > b.readErrAt-b.read {
+		p = p[:b.readErrAt-b.read]
+	}
+	n, err := b.Reader.Read(p)
+	b.read += n
+	return n, err
+}
+
+func (b *c05body) Close() error { return b.closeErr }
+
 // c05enrich adds the optional members of JSON:API to a document or resource payload.
 func c05enrich(v *JV, top bool) {
 	if v == nil {
@@ -636,6 +665,7 @@ func (m c05) namedAttrTypes(c *Ctx) {
 }
 
 func (m c05) Directed(c *Ctx) {
+	sameNameCheck(c, "C05")
 	m.namedAttrTypes(c)
 	t := genAllKindsType("all", false)
 	tw := genAllKindsType("allw", true)
